@@ -19,7 +19,9 @@ TREES = {
     "Tb": {"a": "w", "b": "w", "e": "e"},
     "Tc": {"m": "v", "n/o": "crlf"},
 }
-SCENARIOS = ["stage-transfer", "index-save", "store-transfer", "upload", "verify-transfer"]
+SCENARIOS = ["stage-transfer", "index-save", "store-transfer", "upload", "verify-transfer",
+             "index-save-2fs", "index-save-verify"]
+MEM_ROOT = "memory://c15-second-fs"
 
 
 def listing(t):
@@ -33,10 +35,20 @@ def all_objects(t):
     return out
 
 
+def second_fs_dir(t):
+    """Deepest directory of the tree (its files are kept on the second file system)."""
+    dirs = sorted({r.rsplit("/", 1)[0] for r in TREES[t] if "/" in r}, key=lambda d: (d.count("/"), d))
+    return dirs[-1] if dirs else None
+
+
 def setup(root, cfg):
     """Deterministic harness-side preparation (not crash-eligible)."""
     t = cfg["tree"]
-    write_tree(os.path.join(root, "ws"), {r: CONTENTS[c] for r, c in TREES[t].items()})
+    local = {r: CONTENTS[c] for r, c in TREES[t].items()}
+    if cfg["scenario"] == "index-save-2fs":
+        # the files of the last sub-directory live on a second (in-memory) file system
+        local = {r: d for r, d in local.items() if not r.startswith(second_fs_dir(t) + "/")}
+    write_tree(os.path.join(root, "ws"), local)
     odb = make_odb("local", os.path.join(root, "odb"))
     if cfg["initial"] == "half":
         first = sorted(listing(t).values())[0]
@@ -78,8 +90,31 @@ def body(root, cfg, phase, arm):
         if sc in ("stage-transfer", "upload"):
             staging, _m, obj = build(odb, ws, LFS, "md5", upload=sc == "upload")
             transfer(staging, odb, {obj.hash_info}, shallow=False, hardlink=False)
-        elif sc == "index-save":
+        elif sc in ("index-save", "index-save-verify"):
             index = imd5(ibuild(ws, LFS), state=state)
+            isave(index, odb=odb, **({"verify": True} if sc == "index-save-verify" else {}))
+        elif sc == "index-save-2fs":
+            from dvc_objects.fs.memory import MemoryFileSystem
+
+            from dvc_data.hashfile.meta import Meta
+            from dvc_data.index import DataIndexEntry, FileStorage
+
+            memfs = MemoryFileSystem()
+            d = second_fs_dir(t)
+            dk = tuple(d.split("/"))
+            index = ibuild(ws, LFS)
+            for i in range(1, len(dk) + 1):
+                if dk[:i] not in index:
+                    index[dk[:i]] = DataIndexEntry(key=dk[:i], meta=Meta(isdir=True))
+            for r, c in TREES[t].items():
+                if r.startswith(d + "/"):
+                    rel = r[len(d) + 1:]
+                    memfs.makedirs(memfs.parent(f"{MEM_ROOT}/{rel}"), exist_ok=True)
+                    memfs.pipe_file(f"{MEM_ROOT}/{rel}", CONTENTS[c])
+                    key = tuple(r.split("/"))
+                    index[key] = DataIndexEntry(key=key, meta=Meta(size=len(CONTENTS[c])))
+            index.storage_map.add_data(FileStorage(key=dk, fs=memfs, path=MEM_ROOT))
+            index = imd5(index, state=state)
             isave(index, odb=odb)
         elif sc in ("store-transfer", "verify-transfer"):
             src = make_odb("local", os.path.join(root, "src"))
@@ -248,6 +283,8 @@ def configs(tier):
     trees = ["Ta", "Tb"] + (["Tc"] if tier == "thorough" else [])
     for sc in SCENARIOS:
         for t in trees:
+            if sc == "index-save-2fs" and second_fs_dir(t) is None:
+                continue
             for initial in ("empty", "half"):
                 firsts = [None]
                 if sc in ("stage-transfer", "store-transfer", "upload", "verify-transfer"):
@@ -263,7 +300,7 @@ def configs(tier):
 def run(ctx):
     ctx.rule = (
         "E4: scenarios {stage+transfer into a local store with state, index build/md5/save of nested "
-        "directories, closed store-to-store transfer with a remote index, upload staging, verifying store-to-store transfer from a source holding a corrupt (protected) object} x trees (nested, "
+        "directories, closed store-to-store transfer with a remote index, upload staging, verifying store-to-store transfer from a source holding a corrupt (protected) object, index save of an index whose deepest directory lives on a second (in-memory) file system, verifying index save} x trees (nested, "
         "duplicate + empty contents; thorough: + CRLF) x initial store {empty, half populated} x which object is "
         "first in an add batch x privilege {as invoked, CAP_DAC_OVERRIDE/FOWNER dropped}: the child is killed "
         "before every file-system-mutating event (audit hook) and in the middle of every byte copy; audit; "
